@@ -276,7 +276,21 @@ func genC07(r *Rng, idx int, tier string) *World {
 					q.Method = "OPTIONS"
 					q.Hdr = map[string]string{"Origin": "https://a.com", "Access-Control-Request-Method": "GET", "Access-Control-Request-Headers": pick(r, []string{"content-type", "Content-Type", "X-Token, Content-Type", "x-other"})}
 				}
-				ops = append(ops, Op{T: t, K: "req", Req: q, Pattern: sp, Params: vals})
+				op := Op{T: t, K: "req", Req: q, Pattern: sp, Params: vals}
+				if r.Pct(30) {
+					// the handler itself sends a request through the same router (an internal redirect or
+					// sub-request): nested use of the context pool; its own parameters must survive it
+					np, _ := ParsePattern(w.Setup[r.Intn(len(w.Setup))].Pattern, w.Opts.Interceptors)
+					nv := map[string]string{}
+					for _, tk := range np.Tokens {
+						if tk.Kind != PLit {
+							uniq++
+							nv[tk.Name] = fmt.Sprintf("%d", 1000+uniq)
+						}
+					}
+					op.Args = []string{pick(r, []string{"GET", "POST", "HEAD", "OPTIONS", "PUT"}), np.Fill(nv)}
+				}
+				ops = append(ops, op)
 			}
 			w.Tasks = append(w.Tasks, ops)
 		}
@@ -460,13 +474,18 @@ func execC07(w *World, st *Stats) (*Violation, RunInfo) {
 		results := make([][]string, len(w.Tasks))
 		logs, sw := runTasks(w, func(task int, op *Op) string {
 			var s seen
+			nested := ""
 			o := Serve(r, *op.Req, nil, func(rec *ReqRec, route types.Route) {
 				s.first = snapshotParams(route.Params())
 				simrt.Point(simrt.KUser) // other requests run here
+				if len(op.Args) == 2 {
+					in := Serve(r, Req{Method: op.Args[0], Path: op.Args[1]}, nil, nil)
+					nested = " nested=" + in.Key()
+				}
 				simrt.Point(simrt.KUser)
 				s.second = snapshotParams(route.Params())
 			})
-			out := o.Key()
+			out := o.Key() + nested
 			if op.Params == nil {
 				if fmtParams(s.first) != fmtParams(s.second) {
 					out = fmt.Sprintf("viol:foreign-params:request %s saw %s on entry and %s after yielding", op.Req, fmtParams(s.first), fmtParams(s.second))
@@ -509,9 +528,17 @@ func execC07(w *World, st *Stats) (*Violation, RunInfo) {
 				parts := strings.SplitN(l.Out, ":", 3)
 				return mk("own-params", parts[1], parts[2]), info
 			}
-			want := Serve(r2, *l.Op.Req, nil, nil)
-			if want.Key() != l.Out {
-				return mk("sequential-replica", "differs-from-sequential", fmt.Sprintf("%s answered %s concurrently and %s sequentially", l.Op.Req, l.Out, want.Key())), info
+			nk := ""
+			want := Serve(r2, *l.Op.Req, nil, func(*ReqRec, types.Route) {
+				if len(l.Op.Args) == 2 {
+					in := Serve(r2, Req{Method: l.Op.Args[0], Path: l.Op.Args[1]}, nil, nil)
+					nk = " nested=" + in.Key()
+					st.C("nested_request")
+				}
+			})
+			wantKey := want.Key() + nk
+			if wantKey != l.Out {
+				return mk("sequential-replica", "differs-from-sequential", fmt.Sprintf("%s answered %s concurrently and %s sequentially", l.Op.Req, l.Out, wantKey)), info
 			}
 		}
 		return nil, info
